@@ -52,6 +52,10 @@ pub struct Case {
     /// per input: its dependency exists only in such a place, so the invocation must fail
     #[serde(default)]
     pub unresolvable: Vec<bool>,
+    /// how the options are written: bit 0 = `--opt=value` for long options, bit 1 = options after the
+    /// inputs, bit 2 = `--load-path` spelled out instead of `-I`
+    #[serde(default)]
+    pub argv_form: u8,
 }
 
 fn cli_bin() -> PathBuf {
@@ -127,18 +131,45 @@ pub struct CliOut {
 }
 
 fn argv(case: &Case) -> Vec<String> {
+    let eq = case.argv_form & 1 != 0;
     let mut a = vec![];
     if let Some(s) = &case.style {
-        a.push(if case.style_short_flag { "-t".to_string() } else { "--style".to_string() });
-        a.push(s.clone());
+        if case.style_short_flag {
+            a.push("-t".to_string());
+            a.push(s.clone());
+        } else if eq {
+            a.push(format!("--style={s}"));
+        } else {
+            a.push("--style".to_string());
+            a.push(s.clone());
+        }
     }
     if let Some(p) = case.precision {
-        a.push("--precision".into());
-        a.push(p.to_string());
+        if eq {
+            a.push(format!("--precision={p}"));
+        } else {
+            a.push("--precision".into());
+            a.push(p.to_string());
+        }
     }
     if let Some(lp) = &case.load_path {
-        a.push("-I".into());
-        a.push(lp.clone());
+        if case.argv_form & 4 != 0 {
+            if eq {
+                a.push(format!("--load-path={lp}"));
+            } else {
+                a.push("--load-path".into());
+                a.push(lp.clone());
+            }
+        } else {
+            a.push("-I".into());
+            a.push(lp.clone());
+        }
+    }
+    if case.argv_form & 2 != 0 {
+        // options after the inputs
+        let mut b: Vec<String> = case.inputs.clone();
+        b.extend(a);
+        return b;
     }
     a.extend(case.inputs.iter().cloned());
     a
@@ -577,6 +608,7 @@ pub fn gen_case(rng: &mut Rng) -> Case {
         expect_dep_from,
         forbidden,
         unresolvable,
+        argv_form: if rng.chance(1, 2) { 0 } else { rng.below(8) as u8 },
     }
 }
 
@@ -660,6 +692,11 @@ impl Prop for C40 {
                 c.files.remove(f);
                 push(c, &mut out);
             }
+        }
+        if case.argv_form != 0 {
+            let mut c = case.clone();
+            c.argv_form = 0;
+            push(c, &mut out);
         }
         if case.style.is_some() {
             let mut c = case.clone();
